@@ -213,6 +213,9 @@ def loop_init_facts(f):
         return []
     if inc.get("k") == "Unary" and inc.get("op") == "++" and key(inc["e"]) == var:
         return [(">=", var, val)]
+    ik = key(inc)
+    if inc.get("k") == "Binary" and inc.get("op") == "," and ("(++%s)" % var in ik or "(%s++)" % var in ik) and ("(--%s)" % var) not in ik and ("(%s = " % var) not in ik and ("(%s -=" % var) not in ik:
+        return [(">=", var, val)]
     if inc.get("k") == "CompoundAssign" and inc.get("op") == "+=" and key(inc["l"]) == var:
         return [(">=", var, val)]
     return []
